@@ -466,6 +466,140 @@ def invariance_oracles(ctx, w, bc, cls, order, opt, nucs, subset, rep, case):
     ctx.count("invariance oracles (duplication / rescaling) on the real collections")
 
 
+def rep_snapshot(w, bc, rep, subset, tempNucs):
+    """observable content of a representative block + collection-level results"""
+    nucs = w.allNucs
+    d = rep.getNuclideNumberDensities(nucs)
+    out = {"dens": [d[j] for j in subset], "bu": rep.p.percentBu,
+           "temps": [bc.avgNucTemperatures.get(nucs[j]) for j in tempNucs]}
+    comps = {}
+    for c in rep.getComponents():
+        cd = c.getNuclideNumberDensities(nucs)
+        comps[c.name] = ([cd[j] for j in subset], c.temperatureInC)
+    out["comps"] = comps
+    return out
+
+
+def snap_close(a, b, tol=1e-11):
+    def cl(x, y):
+        if x is None or y is None:
+            return x is y
+        return math.isclose(x, y, rel_tol=tol, abs_tol=1e-30)
+    if not (all(cl(x, y) for x, y in zip(a["dens"], b["dens"])) and cl(a["bu"], b["bu"])
+            and all(cl(x, y) for x, y in zip(a["temps"], b["temps"])) and a["comps"].keys() == b["comps"].keys()):
+        return False
+    for k in a["comps"]:
+        if not (all(cl(x, y) for x, y in zip(a["comps"][k][0], b["comps"][k][0])) and cl(a["comps"][k][1], b["comps"][k][1])):
+            return False
+    return True
+
+
+def trial_reuse(ctx, w, trial, oracle_only=False):
+    """ONE collection object reused across member-state and membership changes: after every step its representative
+    must equal that of a freshly built collection in the same state, and the model's answer for that state."""
+    xg = w.xg
+    rng = random.Random(f"C20r-{ctx.seed}-{trial}")
+    order, opt = prepare_members(w, rng, trial)
+    # all-positive weighting values so that every step is accepted
+    for b in order:
+        b.p.flux = float(rng.randint(1, 2 ** 20)) * 2.0 ** 20
+    nucs = w.allNucs
+    subset = sorted(rng.sample(range(len(nucs)), 6))
+    kind, wparam, byComp = rng.choice([("FluxWeightedAverage", "flux", False), ("Average", "flux", True), ("Average", None, False),
+                                       ("Average", None, True), ("Median", "flux", False)])
+    cls = {"Average": xg.AverageBlockCollection, "FluxWeightedAverage": xg.FluxWeightedAverageBlockCollection,
+           "Median": xg.MedianBlockCollection}[kind]
+
+    def build(members):
+        c = cls(nucs, validBlockTypes=opt["filter"], averageByComponent=byComp)
+        if kind != "FluxWeightedAverage":
+            c.weightingParam = wparam
+        for b in members:
+            c.append(b)
+        return c
+
+    spare = [b for b in w.fuel if not any(b is x for x in order)][:3]
+    for b in spare:
+        b.setType(order[0].getType() if opt["filter"] != ["igniter fuel"] else "igniter fuel")
+        b.p.flux = float(rng.randint(1, 2 ** 20)) * 2.0 ** 20
+    members = list(order)
+    bc = build(members)
+    req, checks = [], []
+    steps = ["create"] + rng.sample(["reweight", "resize", "append", "remove", "burnup"], 3)
+    case0 = dict(opt, trial=trial, collection=kind, weightingParam=wparam, averageByComponent=byComp, steps=steps,
+                 members=[b.getName() for b in order])
+    done = []
+    for step in steps:
+        if step == "reweight":
+            for b in members:
+                b.p.flux = float(rng.randint(1, 2 ** 20)) * 2.0 ** 20
+        elif step == "resize":
+            for b in members:
+                b.setHeight(common.dyadic(rng, 10, 40, 2))
+        elif step == "burnup":
+            for b in members:
+                b.p.percentBu = common.dyadic(rng, 0, 30, 3)
+        elif step == "append" and spare:
+            nb = spare.pop()
+            members.append(nb)
+            bc.append(nb)
+        elif step == "remove" and len(bc.getCandidateBlocks()) > 2:
+            victim = rng.choice(bc.getCandidateBlocks())
+            members = [b for b in members if b is not victim]
+            bc.remove(victim)
+        done.append(step)
+        case = dict(case0, after=list(done))
+        ctx.count(f"reused collection: step {step}")
+        try:
+            with common.quiet():
+                rep = bc.createRepresentativeBlock()
+                fresh = build(members)
+                frep = fresh.createRepresentativeBlock()
+        except Exception as e:  # noqa
+            ctx.fail("reused-collection-raises", "a collection can build its representative again after its members changed", case,
+                     observed=repr(e))
+            break
+        ctx.case(("reuse", trial, tuple(done)), nontrivial=True)
+        tempNucs = subset[:3]
+        a, b_ = rep_snapshot(w, bc, rep, subset, tempNucs), rep_snapshot(w, fresh, frep, subset, tempNucs)
+        if kind == "Median":
+            if bc._getMedianBlock() is not fresh._getMedianBlock():
+                ctx.fail("reused-collection-stale", "a reused collection gives the result of a freshly built one in the same state",
+                         case, observed=bc._getMedianBlock().getName(), expected=fresh._getMedianBlock().getName())
+        if not snap_close(a, b_):
+            ctx.fail("reused-collection-stale", "a reused collection gives the result of a freshly built one in the same state",
+                     case, observed={"dens": a["dens"][:3], "bu": a["bu"], "temps": a["temps"]},
+                     expected={"dens": b_["dens"][:3], "bu": b_["bu"], "temps": b_["temps"]})
+        # direct weighted mean + model for the current state
+        cands = bc.getCandidateBlocks()
+        ws = [((b.p[bc.weightingParam] or 1.0) if bc.weightingParam else 1.0) * (b.getVolume() or 1.0) for b in cands]
+        W = math.fsum(ws)
+        win = [real_weight_inputs(w, bc, b) for b in members]
+        useP = "T" if bc.weightingParam else "F"
+        if kind != "Median" and not bc._performAverageByComponent():
+            vals = [[b.getNuclideNumberDensities(nucs)[j] for j in subset] for b in members]
+            for jj, j in enumerate(subset):
+                xs = [b.getNuclideNumberDensities(nucs)[j] for b in cands]
+                oracle_mean(ctx, dict(case, nuclide=nucs[j]), ws, W, xs, a["dens"][jj], "density")
+            if not oracle_only:
+                blks = "[" + ",".join(blk_line(v, vol, wp, vv) for (v, vol, wp), vv in zip(win, vals)) + "]"
+                req.append(f"avg {useP} {len(subset)} {blks}")
+                checks.append(lambda line, case=case, got=list(a["dens"]): cmp_list(ctx, "reused collection: block-level average", case, line, got))
+        if kind != "Median":
+            hw = [b.p.massHmBOL * wi / b.getVolume() for b, wi in zip(cands, ws)]
+            if math.fsum(hw) > 0:
+                expect = math.fsum(h * b.p.percentBu for h, b in zip(hw, cands)) / math.fsum(hw)
+                if not math.isclose(a["bu"], expect, rel_tol=1e-9, abs_tol=1e-12):
+                    ctx.fail("avg-burnup-hm-weighted", "the averaged burnup is the heavy-metal-weighted mean of the ELIGIBLE members' burnups",
+                             case, observed=a["bu"], expected=expect)
+            if not oracle_only:
+                hb = [[b.p.massHmBOL, b.p.percentBu] for b in members]
+                blks = "[" + ",".join(blk_line(v, vol, wp, x) for (v, vol, wp), x in zip(win, hb)) + "]"
+                req.append(f"burnup {useP} {blks}")
+                checks.append(lambda line, case=case, t=a["bu"]: cmp_list(ctx, "reused collection: burnup", case, line, [t]))
+    return req, checks, case0
+
+
 def trial_grouping(ctx, w, trial):
     """assign types/burnups, regroup the whole core, compare with the model's grouping and check the partition"""
     from armi.physics.neutronics.const import CONF_CROSS_SECTION
@@ -675,6 +809,9 @@ def run(ctx):
         for t in range(ctx.pick(40, 400)):
             r, c, _ = trial_collections(ctx, w, t)
             req += r; checks += c
+        for t in range(ctx.pick(25, 200)):
+            r, c, _ = trial_reuse(ctx, w, t)
+            req += r; checks += c
         model = lean_run("XsGroup", req)
         for line, fn in zip(model, checks):
             fn(line)
@@ -685,7 +822,8 @@ def run(ctx):
                 "the other way; all 52 env letters). Collections: seeded member sets of 2-12 blocks of the reference reactor "
                 "(compositions, temperatures, burnups, flux all-zero / all-positive / mixed, block-type filters, duplicates, "
                 "identical members) x {Average, Average by component, FluxWeightedAverage, flux-weighted by component, Median, "
-                "flux-weighted Median}; groupings: seeded XS types / burnup and temperature boundaries over the whole core. "
+                "flux-weighted Median}; 2-4 step sequences on ONE reused collection (create, re-weight / resize / change burnups / append / "
+                "remove members, create again) compared with a fresh collection and the model at every step; groupings: seeded XS types / burnup and temperature boundaries over the whole core. "
                 "distinct = labels + (trial, collection variant) + grouping trials; all non-trivial (real API compared with the model).")
 
 
@@ -702,6 +840,7 @@ def search(ctx, disagreements, broken):
             w = World()
             for t in (trials or list(range(20)))[:30]:
                 trial_collections(sub, w, t, oracle_only=True)
+                trial_reuse(sub, w, t, oracle_only=True)
                 trial_grouping(sub, w, t)
             for t in range(1000, 1040):
                 trial_collections(sub, w, t, oracle_only=True)
@@ -740,6 +879,8 @@ def replay(ctx, payload):
             t = case.get("trial", 0) if isinstance(case, dict) else 0
             if "buBounds" in case:
                 trial_grouping(sub, w, t)
+            elif "steps" in case:
+                trial_reuse(sub, w, t, oracle_only=True)
             else:
                 trial_collections(sub, w, t, oracle_only=True)
     hit = [f for f in sub.failures if f.key == key]
